@@ -149,6 +149,15 @@ fn expand_single_relspec(value: &str, ctx: &impl ElementMap) -> String {
     value.to_string()
 }
 
+/// Text of a generated XML comment; '--' is not allowed within comments.
+pub(crate) fn comment_text(content: &str) -> String {
+    let mut content = content.to_owned();
+    while content.contains("--") {
+        content = content.replace("--", "- -");
+    }
+    format!(" {content} ")
+}
+
 impl SvgElement {
     pub fn new(name: &str, attrs: &[(String, String)]) -> Self {
         let mut attr_map = AttrMap::new();
@@ -259,11 +268,9 @@ impl SvgElement {
             //
             // Replace double quote with backtick to avoid messy XML entity conversion
             // (i.e. &quot; or &apos; if single quotes were used)
-            events.push(OutputEvent::Comment(
-                format!(" {} ", self.original)
-                    .replace('"', "`")
-                    .replace(['<', '>'], ""),
-            ));
+            events.push(OutputEvent::Comment(comment_text(
+                &self.original.replace('"', "`").replace(['<', '>'], ""),
+            )));
             events.push(OutputEvent::Text(format!("\n{}", " ".repeat(self.indent))));
         }
 
@@ -271,13 +278,13 @@ impl SvgElement {
         if let Some(comment) = self.get_attr("_") {
             // Expressions in comments are evaluated
             let value = eval_attr(&comment, ctx)?;
-            events.push(OutputEvent::Comment(format!(" {value} ")));
+            events.push(OutputEvent::Comment(comment_text(&value)));
             events.push(OutputEvent::Text(format!("\n{}", " ".repeat(self.indent))));
         }
 
         // 'Raw' comment: no evaluation of expressions occurs here
         if let Some(comment) = self.get_attr("__") {
-            events.push(OutputEvent::Comment(format!(" {comment} ")));
+            events.push(OutputEvent::Comment(comment_text(&comment)));
             events.push(OutputEvent::Text(format!("\n{}", " ".repeat(self.indent))));
         }
 
